@@ -283,11 +283,11 @@ func (c *c08) text(rs []rune, bucket string, level int) {
 		case cls == 0 && !bytes.Equal(out, e.out):
 			r.Fail("encode/depends-on-dst-capacity", "encoder output depends on the room offered", in+fmt.Sprintf(" len(dst)=%d", cp),
 				fmt.Sprintf("%x", out), fmt.Sprintf("%x", e.out))
-		case cls == 3 && cp >= need:
-			r.Fail("encode/short-dst-with-enough-room", "ErrShortDst although the output fits", in+fmt.Sprintf(" len(dst)=%d need=%d", cp, need), "ErrShortDst", "octets")
+		case cls == 0 && cp < need:
+			r.Fail("encode/octets-into-short-dst", "octets returned into a destination smaller than the output", in+fmt.Sprintf(" len(dst)=%d need=%d", cp, need), fmt.Sprintf("%x", out), "ErrShortDst")
 		}
 		r.Case(fmt.Sprintf("enc_transform cap=%d %s", cp, in),
-			fmt.Sprintf("out_is beq_bytes (enc_transform %d%%nat %s) %d %s", cp, coqRunes(rs), cls, coqHex(out)))
+			fmt.Sprintf("cap_obs_ok beq_bytes (enc_transform %d%%nat %s) %d %s", cp, coqRunes(rs), cls, coqHex(out)))
 	}
 	if amb || len(rs) == 0 || level < 2 {
 		return
@@ -307,7 +307,7 @@ func (c *c08) text(rs []rune, bucket string, level int) {
 			r.Fail("decode/cuts-inside-character", "decoder output is not valid UTF-8", in, fmt.Sprintf("%x", out), "valid UTF-8")
 		}
 		r.Case(fmt.Sprintf("dec_transform cap=%d %s", cp, in),
-			fmt.Sprintf("out_is beq_runes (dec_transform %d%%nat %s) %d %s", cp, coqHex(e.out), cls, coqRunes(runesOf(string(out)))))
+			fmt.Sprintf("cap_obs_ok beq_runes (dec_transform %d%%nat %s) %d %s", cp, coqHex(e.out), cls, coqRunes(runesOf(string(out)))))
 	}
 }
 
@@ -487,6 +487,28 @@ func corrC08(r *Run) {
 					lvl = 2
 				}
 				c.text(t, "residue sweep", lvl)
+			}
+		}
+	}
+
+	// ---- 4b. the ambiguous class on purpose: 8k septets ending in CR (and 8k-1, 8k+1 next to it), every penultimate symbol
+	for k := 1; k <= r.N(4, 20); k++ {
+		for _, y := range finals {
+			for d := -1; d <= 1; d++ {
+				w := 1
+				if _, ok := stdExtension[stdSeptets[y][len(stdSeptets[y])-1]]; ok && len(stdSeptets[y]) == 2 {
+					w = 2
+				}
+				p := 8*k + d - w - 1
+				if p < 0 {
+					continue
+				}
+				t := make([]rune, 0, p+2)
+				for i := 0; i < p; i++ {
+					t = append(t, filler[i%len(filler)])
+				}
+				t = append(t, y, '\r')
+				c.text(t, "8k-1 / 8k / 8k+1 septets ending in CR", 2)
 			}
 		}
 	}
